@@ -182,11 +182,11 @@ func DefHandlerID(prop string) string {
 
 // Vocab is spec/vocab.json: the shipped matcher sources and default sets.
 type VocabT struct {
-	DefaultBare        []string          `json:"defaultBare"`
-	DefaultSkip        []string          `json:"defaultSkip"`
-	Re                 map[string]string `json:"re"`
-	DataURIImagesFunc  string            `json:"dataURIImagesFunc"`
-	SandboxValues      []string          `json:"sandboxValues"`
+	DefaultBare       []string          `json:"defaultBare"`
+	DefaultSkip       []string          `json:"defaultSkip"`
+	Re                map[string]string `json:"re"`
+	DataURIImagesFunc string            `json:"dataURIImagesFunc"`
+	SandboxValues     []string          `json:"sandboxValues"`
 }
 
 var Vocab VocabT
